@@ -134,6 +134,17 @@ var WorldAtoms = []WorldAtom{
 		ss[1].Extra = append(ss[1].Extra, "scalar DateTime")
 		return ss
 	}, false},
+	{"interface-field-owned-per-implementation", func(ss []*SvcSpec) []*SvcSpec {
+		// one field of an interface lives in different services for different implementations; the service that
+		// answers the interface-typed root field declares the interface without it
+		ss[0].addType("Usr", "interface", "id: ID!")
+		ss[0].addType("UA", "Node & Usr", "uname: String")
+		ss[0].addType("UB", "Node & Usr")
+		ss[0].Query = append(ss[0].Query, "usrs: [Usr!]!")
+		ss[1].addType("Usr", "interface", "id: ID!", "uname: String")
+		ss[1].addType("UB", "Node & Usr", "uname: String")
+		return ss
+	}, false},
 	{"underscore-names", func(ss []*SvcSpec) []*SvcSpec {
 		// names that start with one underscore are ordinary names (two are reserved)
 		ss[1].Query = append(ss[1].Query, "_meta: String")
@@ -437,6 +448,11 @@ var MergeAtoms = []WorldAtom{
 		ss[1].addType("Res", "interface Node", "id: ID!", "size: Int")
 		ss[1].addType("ResA", "Node & Res", "size: Int")
 		ss[1].Query = append(ss[1].Query, "resA1: Res")
+		return ss
+	}, false},
+	{"directives-named-like-draft-spec-ones", func(ss []*SvcSpec) []*SvcSpec {
+		// a service's own definitions of directives that newer specification drafts (not the pinned gqlparser) know
+		ss[1].Extra = append(ss[1].Extra, "directive @defer(label: String, if: Boolean = true) on FRAGMENT_SPREAD | INLINE_FRAGMENT", "directive @oneOf on INPUT_OBJECT")
 		return ss
 	}, false},
 	{"plain-type-disjoint-fields-third-service", func(ss []*SvcSpec) []*SvcSpec {
